@@ -77,7 +77,13 @@ func (w *World) frameNoise(ep *Endpoint, spec packets.PacketFilterSpec, now time
 		}
 		b = codec.BuildIPv4(s4, d4, proto, 60, opts, l4)
 		switch mut {
-		case 10: // IHL nibble rewritten without moving anything (0..15)
+		case 10: // IHL nibble rewritten without moving anything (0..15): the programs then read
+			// "ports" and "flags" from arbitrary header bytes, so nothing in this frame may depend on
+			// kernel-chosen port numbers (not even through the TCP checksum)
+			seg.SrcPort, seg.DstPort = 0x1234, 0x4321
+			l4 = codec.BuildTCP(s4, d4, seg)
+			l4[16], l4[17] = 0xab, 0xcd
+			b = codec.BuildIPv4(s4, d4, codec.ProtoTCP, 60, opts, l4)
 			b[0] = 0x40 | byte(rng.IntN(16))
 		case 11: // truncated around the load offsets of the programs
 			cut := []int{0, 9, 10, 19, 20, 21, 23, 24, 33, 34, 35, 36, 37, 38, 39}[rng.IntN(15)]
